@@ -21,7 +21,7 @@ THREADS = True
 
 
 def thread_ok(case):
-    return case['via'] == 'func'
+    return case.get('via') == 'func'
 
 def columns():
     from cardutil.config import config
@@ -89,7 +89,37 @@ def gen(rng, tier):
                 row = ['' if drop(c) else v for c, v in zip(cols, row)]
             rows.append(row)
         cases.append({'cols': cols, 'rows': rows, 'codec': rng.choice(['latin_1', 'cp500']), 'blocked': rng.random() < 0.5, 'via': ['cli', 'cli-config', 'cli-mideu', 'cli-env', 'cli-nolist', 'cli-mideu'][(i // 3) % 6] if i % 3 == 0 else 'func'})
+    # the csv layer by itself (model/Csv.v is a transcription of CPython's _csv.c): arbitrary and malformed texts through
+    # csv.reader - as a StringIO (lines end at LF only) and as a text file would deliver them (CR / CRLF read as LF) -,
+    # arbitrary rows through csv.writer(lineterminator="\n")
+    alpha = 'ab ' + ',' * 3 + '"' * 4 + '\n\n\r\t' + "'" + 'x\u00e9\u20ac;'
+    for i in range(400 if tier == 'quick' else 20000):
+        n = rng.choice([0, 1, 2, 3, 5, 8, 13, 30])
+        cases.append({'kind': 'csvparse', 'nl': rng.random() < 0.4, 'text': ''.join(rng.choice(alpha) for _ in range(n))})
+    for i in range(200 if tier == 'quick' else 10000):
+        rows = [[''.join(rng.choice(alpha) for _ in range(rng.choice([0, 0, 1, 2, 5]))) for _ in range(rng.choice([0, 1, 1, 2, 3, 6]))]
+                for _ in range(rng.choice([0, 1, 2, 4]))]
+        cases.append({'kind': 'csvwrite', 'rows': rows})
+    if tier != 'quick':
+        # the field size limit: 131072 characters are accepted, one more is refused
+        for n in (131071, 131072, 131073):
+            cases.append({'kind': 'csvparse', 'nl': False, 'text': 'a,' + 'x' * n + '\n'})
+            cases.append({'kind': 'csvparse', 'nl': False, 'text': '"' + 'x' * n})
     return cases
+
+
+def ctable_text(rows):
+    return '/'.join('.' if not r else ','.join(hs(c) if c else '_' for c in r) for r in rows) or '-'
+
+
+def csv_outcome(fn, render):
+    try:
+        return 'OK ' + render(fn())
+    except csv.Error:
+        return 'RAISE OTHER:?'
+    except Exception as ex:
+        from util import exc_class
+        return 'RAISE ' + exc_class(ex)
 
 
 def csv_text(cols, rows):
@@ -101,6 +131,15 @@ def csv_text(cols, rows):
 
 
 def impl(case):
+    if case.get('kind') == 'csvparse':
+        return {'out': csv_outcome(lambda: list(csv.reader(io.StringIO(case['text'], newline=None) if case['nl'] else io.StringIO(case['text']))), ctable_text)}
+    if case.get('kind') == 'csvwrite':
+        def wr():
+            o = io.StringIO()
+            csv.writer(o, lineterminator='\n').writerows(case['rows'])
+            return o.getvalue()
+        # what was written reads back (the oracle assumption of the row-level theorem, here checked on CPython itself)
+        return {'out': csv_outcome(wr, hs), 'back': csv_outcome(lambda: list(csv.reader(io.StringIO(wr()))), ctable_text)}
     from cardutil.config import config
     from cardutil.cli import mci_csv_to_ipm, mci_ipm_to_csv
     text = csv_text(case['cols'], case['rows'])
@@ -166,7 +205,8 @@ def impl(case):
     back = list(csv.DictReader(io.StringIO(out)))
     # without an output column list the tool writes the columns that occur: a column that is empty in every row is absent
     absent = '' if case['via'] == 'cli-nolist' else None
-    return {'out': 'OK', 'ipm': ipm.hex(), 'rows': [[r.get(c, absent) for c in case['cols']] for r in back], 'n': len(back)}
+    return {'out': 'OK', 'ipm': ipm.hex(), 'rows': [[r.get(c, absent) for c in case['cols']] for r in back], 'n': len(back),
+            'text_in': text, 'text_out': out}
 
 
 def cols_text(cols):
@@ -178,10 +218,19 @@ def rows_text(rows):
 
 
 def model_lines(case, io_):
+    if case.get('kind') == 'csvparse':
+        return ['csv_parse %s %s' % ('1' if case['nl'] else '0', hs(case['text']))]
+    if case.get('kind') == 'csvwrite':
+        return ['csv_table ' + ctable_text(case['rows'])]
     b = '1' if case['blocked'] else '0'
     lines = ['csv_to_ipm %s %s %s %s' % (iu.hs(case['codec']), b, cols_text(case['cols']), rows_text(case['rows']))]
     if io_.get('out') == 'OK':
         lines.append('ipm_to_rows %s %s %s %s' % (iu.hs(case['codec']), b, cols_text(case['cols']), io_['ipm'] or '-'))
+        # the same two steps at TEXT level: the csv text the tool was given, the csv text it wrote (all its columns)
+        lines.append('csv_text_to_ipm %s %s %s' % (iu.hs(case['codec']), b, hs(io_['text_in'])))
+        if case['via'] != 'cli-nolist':
+            from cardutil.config import config
+            lines.append('ipm_to_csv_text %s %s %s %s' % (iu.hs(case['codec']), b, cols_text(config['output_data_elements']), io_['ipm'] or '-'))
     return lines
 
 
@@ -194,6 +243,16 @@ def strip_fill(f):
 
 def judge(case, io_, mo):
     ps = []
+    if case.get('kind') == 'csvparse':
+        if mo is not None and mo[0] != io_['out']:
+            ps.append({'kind': 'corr', 'sig': 'csv-reader', 'msg': 'csv.reader gives %s, the model %s' % (io_['out'][:80], mo[0][:80])})
+        return ps
+    if case.get('kind') == 'csvwrite':
+        if mo is not None and mo[0] != io_['out']:
+            ps.append({'kind': 'corr', 'sig': 'csv-writer', 'msg': 'csv.writer gives %s, the model %s' % (io_['out'][:80], mo[0][:80])})
+        if not any('\r' in c for r in case['rows'] for c in r) and io_['back'] != 'OK ' + ctable_text(case['rows']):
+            ps.append({'kind': 'oracle', 'sig': 'csv-roundtrip', 'msg': 'CPython csv: reading what was written gives %s' % io_['back'][:80]})
+        return ps
     if io_['out'] != 'OK':
         return [{'kind': 'oracle', 'sig': 'tool-failed-' + case['via'], 'msg': 'csv -> ipm -> csv failed: %s' % io_['out']}]
     if io_['n'] != len(case['rows']):
@@ -217,14 +276,22 @@ def judge(case, io_, mo):
             ps.append({'kind': 'corr', 'sig': 'csv_to_ipm', 'msg': 'IPM file differs from model: %s' % mo[0][:60]})
         elif len(mo) > 1 and mo[1] != 'OK ' + rows_text(io_['rows']):
             ps.append({'kind': 'corr', 'sig': 'ipm_to_rows', 'msg': 'CSV cells differ from model: %s' % mo[1][:100]})
+        elif len(mo) > 2 and (not mo[2].startswith('OK ') or ((strip_fill(f) != strip_fill(bytes.fromhex(mo[2][3:]) if mo[2][3:] != '-' else b'')) if case['blocked'] else mo[2] != 'OK ' + (io_['ipm'] or '-'))):
+            ps.append({'kind': 'corr', 'sig': 'csv_text_to_ipm', 'msg': 'IPM file differs from the text-level model: %s' % mo[2][:60]})
+        elif len(mo) > 3 and mo[3] != 'OK ' + hs(io_['text_out']):
+            ps.append({'kind': 'corr', 'sig': 'ipm_to_csv_text', 'msg': 'the CSV text written differs from the text-level model: %s' % mo[3][:100]})
     return ps
 
 
 def nontrivial(case, io_):
+    if case.get('kind') == 'csvparse':
+        return len(case['text']) >= 2
     return len(case['rows']) >= 2
 
 
 def label(case):
+    if case.get('kind') in ('csvparse', 'csvwrite'):
+        return case['kind'] + ('/universal-newlines' if case.get('nl') else '')
     n = len(case['rows'])
     return '%s/%s/%s/rows=%s/%s' % (case['via'], case['codec'], '1014' if case['blocked'] else 'vbs', '1' if n == 1 else '2-5' if n <= 5 else '6+',
                                     'pds-columns' if any(c.startswith('PDS') for c in case['cols']) else 'carrier-column')
